@@ -19,6 +19,10 @@ type unaryNegation struct {
 	once sync.Once
 
 	series []labels.Labels
+	// dedup merges series which get the same label set because the metric
+	// name is dropped. Prometheus negates whole series, so two such series
+	// fail the query no matter at which steps they have samples.
+	dedup *model.SeriesDeduplicator
 
 	workers worker.Group
 }
@@ -58,6 +62,7 @@ func (u *unaryNegation) loadSeries(ctx context.Context) error {
 		lbls := labels.NewBuilder(vectorSeries[i]).Del(labels.MetricName).Labels(nil)
 		u.series[i] = lbls
 	}
+	u.dedup, u.series = model.NewSeriesDeduplicator(u.series, true)
 
 	u.workers.Start(ctx)
 	return nil
@@ -89,6 +94,9 @@ func (u *unaryNegation) Next(ctx context.Context) ([]model.StepVector, error) {
 		return nil, nil
 	}
 	for i, vector := range in {
+		if err := u.dedup.Apply(vector.SampleIDs); err != nil {
+			return nil, err
+		}
 		if err := u.workers[i].Send(0, vector); err != nil {
 			return nil, err
 		}
